@@ -291,3 +291,43 @@ def run_identity(case):
                 bad.append({'step': steps, 'object': o, 'expected': want_beh, 'observed': got,
                             'history': [lbl for lbl, _s in case['path'][:steps]]})
     return {'bad': bad, 'reused': reused}
+
+
+BO_GRAMMAR = "@@grammar :: Bo\nstart::Thing = x:'a' ;\n"
+
+
+def run_builder_history(case):
+    """Replay one behaviour of spec/BuilderOptions.tla (compile with builder options / parse with a model obtained earlier) in this
+    fresh interpreter.  -> [{'call':..., 'observed': option the built node derives from, 'ideal':..., 'as_coded':...}]"""
+    import tatsu
+    from tatsu.objectmodel import Node
+    from .dotgraph import split_action
+
+    class BaseA(Node):
+        pass
+
+    class BaseB(Node):
+        pass
+    bases = {'A': BaseA, 'B': BaseB}
+
+    def reveal(node):
+        return 'A' if isinstance(node, BaseA) else 'B' if isinstance(node, BaseB) else 'plain' if isinstance(node, Node) else f'?{type(node).__name__}'
+    handles, out = [], []
+    for label, st in case['path']:
+        c = st['last']
+        try:
+            if c['op'] == 'compile':
+                kw = {'asmodel': True} if c['o'] == 'plain' else {'basetype': bases[c['o']]}
+                m = tatsu.compile(BO_GRAMMAR, **kw)
+                if len(handles) < 2:
+                    handles.append((m, c['o']))
+                obs = reveal(m.parse('a'))
+                ideal = c['o']
+            else:
+                m, o = handles[c['h'] - 1]
+                obs = reveal(m.parse('a'))
+                ideal = o
+        except Exception as e:  # noqa: BLE001
+            obs, ideal = f'raised {type(e).__name__}: {str(e)[:80]}', (c.get('o') or '?')
+        out.append({'call': c, 'observed': obs, 'ideal': ideal, 'as_coded': st['resp']})
+    return out
